@@ -437,6 +437,36 @@ def run(ctx):
             else:
                 tally["mistyped-reported"] += 1
     seen, uniq = set(), []
+    # constants that refer to a later constant, to themselves or to a name that is not declared: an error, never a panic
+    # and never a circuit (a constant may only use constants declared before it)
+    bad_refs = []
+    for i in range(12 if quick else 200):
+        t = ctx.rng.choice(["u8", "u16", "u32", "usize", "i8", "i32", "bool"])
+        lit = "true" if t == "bool" else f"{ctx.rng.choice([0, 1, 2, 3])}{t}"
+        shape = ctx.rng.choice(["later", "later-expr", "self", "self-expr", "unknown", "later-external"])
+        if t == "bool" and shape.endswith("expr"):
+            shape = "later"
+        decl = {"later": f"const A: {t} = B;\nconst B: {t} = {lit};\n",
+                "later-expr": f"const A: {t} = max(B, {lit}) + {lit};\nconst B: {t} = {lit};\n",
+                "self": f"const A: {t} = A;\n",
+                "self-expr": f"const A: {t} = A + {lit};\n",
+                "unknown": f"const A: {t} = NOPE;\n",
+                "later-external": f"const A: {t} = B;\nconst B: {t} = PARTY_0::X;\n"}[shape]
+        use = f"pub fn main(x: [u8; A]) -> u8 {{ x[0usize] }}\n" if t == "usize" and ctx.rng.random() < 0.5 else f"pub fn main(x: {t}) -> bool {{ x == A }}\n"
+        consts = {"PARTY_0": {"X": ("True" if t == "bool" else {"NumSigned" if T.INTS[t][0] else "NumUnsigned": [1, T.SERDE[t]]})}} if shape == "later-external" else {}
+        bad_refs.append({"id": i, "op": "compile_eval", "src": decl + use, "kind": "ssa", "dedup": True, "consts": consts, "inputs": [], "shape": shape})
+    bres = common.run_lines_guarded(common.GVH, [{k: v for k, v in q.items() if k != "shape"} for q in bad_refs], per_case_timeout=10.0)
+    tally["bad-reference-rejected"] = 0
+    for q in bad_refs:
+        r = bres.get(q["id"]) or {}
+        sub = {"op": "c12", "seed": 0, "kind": "bad-reference:" + q["shape"], "src": q["src"], "substituted": "", "consts": q["consts"]}
+        if r.get("ok"):
+            failures.append(Failure("oracle", "c12:bad-constant-reference-accepted:" + q["shape"], "a constant that refers to a later constant, to itself or to an unknown name is compiled", sub, "an error", "a circuit"))
+        elif r.get("stage") == "panic" or r.get("hang") or "died" in r:
+            site = str(r.get("detail", "")).split(": ")[0].replace("/repo/", "")
+            failures.append(Failure("oracle", f"c12:bad-constant-reference-panics@{site}", f"a constant that refers to a later constant, to itself or to an unknown name makes the compiler panic: {r.get('detail')}", sub, "an error", r.get("detail")))
+        else:
+            tally["bad-reference-rejected"] += 1
     for f in failures:
         if f.signature not in seen:
             seen.add(f.signature); uniq.append(f)
@@ -449,7 +479,8 @@ def run(ctx):
                 "from usize constants, (2) generated programs in which literals are replaced by constants. Each is compiled with the "
                 "constants supplied and, independently, from the text with the values substituted: same input parties, same outputs on "
                 "4 argument tuples. Then some constants are left out / supplied with another type: compilation must return an error "
-                "naming them. non-trivial = program pairs found equivalent",
+                "naming them; constants that refer to a later constant, to themselves or to an unknown name must be rejected with an "
+                "error (no circuit, no panic). non-trivial = program pairs found equivalent",
         "distribution": {"results": tally, "kinds": kinds, "const_expression_roots": shapes, "compiler_model_with_constants": mtally},
         "samples": [{"src": cases[0]["src_a"]}, {"src": cases[1]["src_a"]}],
     }
